@@ -43,7 +43,6 @@ def parse_xs(s):
 
 
 CG_KINDS = ("sxp", "weibull", "gumbeltrunc", "gev")
-SXP_UNSET_KEY = "C11:esl_sxp_cdf:unset-value"
 
 # ------------------------------------------------------------------------------------------------
 # log-likelihoods (python floats, fsum) used by the monitors
@@ -279,12 +278,11 @@ class C11(Prop):
                   "NOT a theorem: that the conjugate-gradient stopping rule (relative decrease of f below 1e-5) makes the gradient small, so 'the point reached maximises the likelihood' is proved only "
                   "conditionally (Weibull: bounded by the derivatives at the point; stationarity => global maximum); monitored: local pattern search, fit >= generating parameters, recovery on exact "
                   "quantile grids of every family. Gamma stationarity in tau (digamma; the code uses its own series), stretched-exponential shape in tau and GEV likelihood shape (concavity): not proved. "
-                  "esl_sxp_FitCompleteBinned is modelled (esl_sxp_cdf through the model's IncompleteGamma; objective = -sum obs*log(cdf differences), documented status/location) and compared "
-                  "exactly; KNOWN FINDING C11:esl_sxp_cdf:unset-value: esl_sxp_cdf ignores the status of esl_stats_IncompleteGamma and returns an uninitialised double when it fails "
-                  "(lambda = inf, tau = 0/inf, NaN) - the model answers NaN there (proposed repair), a divergence of hsxpfit is excused only when a side shows eslERANGE/non-finite parameters. "
+                  "esl_sxp_FitCompleteBinned is modelled (esl_sxp_cdf through the model's IncompleteGamma, NaN when it cannot be evaluated - repaired in 8c29128; objective = -sum obs*log(cdf "
+                  "differences), documented status/location) and compared exactly. "
                   "Not modelled (monitors only): esl_histogram_Write/Print and the number formatting of the plots, esl_gumbel/esl_exp tail fits. "
                   "Log-normal sigma uses the n-1 variance, not the ML n; libm and libc qsort are trusted. "
-                  "Genuine defects found while building this check and repaired in /repo: b44f0f8 7d6f911 fd84f7f bad2f4e 2487976 935fded 9b72a6e 6f20587 6da6a89 8354c02 6815f41; their witnesses are corpus regression cases.")
+                  "Genuine defects found while building this check and repaired in /repo: b44f0f8 7d6f911 fd84f7f bad2f4e 2487976 935fded 9b72a6e 6f20587 6da6a89 8354c02 6815f41 8c29128; their witnesses are corpus regression cases.")
     diverge_is_violation = True
     fault_is_output = True      # faults are classified by monitor() (a hang inside a CG-based fit carries the known key)
     trusted_base = ["hand model of esl_histogram.c and of the closed-form/Newton fits tied by a bit-exact differential run (h_stats.c, ASan+UBSan build of the working tree)",
@@ -356,13 +354,6 @@ class C11(Prop):
                 # degenerate data (fewer than two distinct values): outside the property's quantifier except for termination and
                 # a status; the numbers returned are 0/0 artefacts, only the status has to agree
                 if a.split(" ")[0] == b.split(" ")[0]: continue
-            if a != b and op.startswith("hsxpfit") and (self.sxp_unset_signature(a) or self.sxp_unset_signature(b)):
-                # KNOWN FINDING C11:esl_sxp_cdf:unset-value (patch proposed, /var/tmp/fixes-proposed/C11-sxp-cdf-unset.patch): esl_sxp_cdf() returns an
-                # uninitialised double when esl_stats_IncompleteGamma() fails (lambda = inf, tau = 0/inf, NaN); the model returns NaN there (the
-                # repaired behaviour), so a run that went through a non-finite objective (status eslERANGE / non-finite parameters on either
-                # side) may legitimately differ until the repair lands. A difference between two finite eslOK/eslENOHALT answers is NOT excused.
-                case["known_key"] = SXP_UNSET_KEY
-                return (i, a, b)
             if a != b and not self.close(op, a, b):
                 # a dump that differs only in how values within rounding distance of a bin edge were placed (the shifted bmin of a
                 # different - harmless - allocation policy rounds differently; layer L0) is accepted when the implementation's own
@@ -375,17 +366,6 @@ class C11(Prop):
                         return None      # from here on the two sides hold (legitimately) different counts near bin edges: monitors only
                 return (i, a, b)
         return None
-
-    @staticmethod
-    def sxp_unset_signature(line):
-        w = line.split(" ")
-        if w[0] == "erange": return True
-        for t in w[1:]:
-            try:
-                if not math.isfinite(fbits(t)): return True
-            except Exception:
-                pass
-        return False
 
     def close(self, op, a, b):
         """Statuses, integers, counts and every copied value must agree exactly; COMPUTED doubles (fitted parameters, shifted bin
@@ -538,6 +518,10 @@ class C11(Prop):
                 "hnew full=0 bmin=%s bmax=%s w=%s" % (d(0.0), d(10.0), d(1.0)), "hadd xs=" + ",".join(d(0.5 + i) for i in range(9)),
                 "hexptail cdf=exp c=%s,%s base=%s pmass=%s" % (d(0.0), d(1.0), d(bad), d(0.5)), "hexpdump", "hgood nfitted=0", "hplot", "hplotsurv", "hplotqq",
                 "hexptail cdf=exp c=%s,%s base=%s pmass=%s" % (d(0.0), d(1.0), d(2.0), d(0.5)), "hexpdump", "hgood nfitted=0", "hplot"]})
+        # regression 8c29128: esl_sxp_cdf() returned an uninitialised double when esl_stats_IncompleteGamma() failed (here lambda0 = 1/(35-35) = inf):
+        # esl_sxp_FitCompleteBinned optimised on garbage; now NaN -> eslERANGE with the start point
+        c.append({"name": "regress-sxp-cdf-unset", "sticky": 1, "ops": [
+            "hnew full=0 bmin=%s bmax=%s w=%s" % (d(0), d(100), d(10)), "hadd xs=" + d(35.0), "hdump", "hsxpfit", "hadd xs=" + d(35.0), "hsxpfit", "hweifit"]})
         g = grid("exp", 400, 0.0, 0.5, 1.0)
         c.append({"name": "goodness-exp-grid", "sticky": 1, "ops": [
             "hnew full=1 bmin=%s bmax=%s w=%s" % (d(0.0), d(20.0), d(0.25)), "hadd xs=" + ",".join(d(x) for x in g),
